@@ -8,7 +8,7 @@ made=0
 if [ ! -d "$WT" ]; then git -C /repo worktree add -q --detach "$WT" HEAD || exit 2; made=1; fi
 cd "$WT" || exit 2
 git checkout -q -- . ; git clean -fdq -e _seeded; git checkout -q --detach $(git -C /repo rev-parse HEAD)
-if ! git apply "$P" 2>/dev/null && ! git apply --3way "$P" 2>/dev/null; then echo "patch does not apply: $P"; [ $made = 1 ] && git -C /repo worktree remove --force "$WT"; exit 2; fi
+if ! git apply "$P" 2>/dev/null; then echo "patch does not apply: $P"; [ $made = 1 ] && git -C /repo worktree remove --force "$WT"; exit 2; fi
 cd /verif && VERIF_REPO="$WT" ./check "$ID" "$TIER" > .work/mutant.$$.log 2>&1; rc=$?
 grep -E "^(VIOLATION|KNOWN|INCONCLUSIVE|BUILD|C[0-9]+ )" .work/mutant.$$.log | cut -c1-220 | head -6
 rm -f .work/mutant.$$.log
